@@ -805,7 +805,7 @@ def _emit_item(unit, g, src, it, iid, label, a, fnq, emit, canary, spec):
                 tramp = a.mcalls[name]
                 ref = ''
                 if isinstance(tramp, tuple):
-                    tramp, ref = tramp[0], '&'
+                    tramp, ref = tramp[0], ('&mut ' if tramp[1] == 'mut' else '&')
                 em.insert_before_tok(rs, f'{tramp}({ref}')
                 new_txt = ', ' if close > dot + 3 else ''
                 em.replace_toks(dot, dot + 3, new_txt)
